@@ -296,6 +296,10 @@ class FsmFlowModel(BlockModel):
                 for s in states:
                     self.table[(event, s)] = nxt
         self.methods = set(cls.get('methods', []))
+        self.funcs = set(inst.get('funcs', []))
+        # events sent by exit actions / condition functions ('m:exit_s1' = the method,
+        # 'i:cond_e0' = the instance callback): {key: [{'to', 'how', 'ev', 'data'}, ...]}
+        self.acts = inst.get('acts', {})
         self.timers = cls.get('timers', {})
         self.fstate = UNDEF
         self.in_transition = False
@@ -337,8 +341,7 @@ class FsmFlowModel(BlockModel):
                 eng.note('early_return')
                 self._guarded(self.emit, 'on_notrans', {})
                 return False
-            if self.output != UNDEF and f"cond_{ev}" in self.methods \
-                    and not data.get('ok', True):
+            if self.output != UNDEF and not self._guarded(self._conditions, ev, data):
                 eng.note('early_return')
                 return False
         if self.in_transition:
@@ -351,6 +354,34 @@ class FsmFlowModel(BlockModel):
             return self._guarded(self._transition, ev, data, newstate)
         finally:
             self.in_transition = False
+
+    def _run_acts(self, kind, name, where):
+        """
+        Events sent by an exit action or a condition function. Neither is a documented
+        exception from the rule: whatever comes back to this FSM must be refused.
+        """
+        eng = self.eng
+        for where_key, defined in (('i:', self.funcs), ('m:', self.methods)):
+            if f"{kind}_{name}" not in defined:
+                continue
+            for act in self.acts.get(f"{where_key}{kind}_{name}", ()):
+                eng.note(f"act_{where}")
+                data = dict(act.get('data', {}))
+                try:
+                    if act.get('how') == 'send':
+                        eng.send(self, {'dst': act['to'], 'ev': act['ev'], 'filters': []}, data)
+                    else:
+                        if act['to'] not in eng.blocks:
+                            raise ValueError(f"action addressed to a missing block {act['to']}")
+                        eng.deliver(act['to'], act['ev'], data, own=act['to'] == self.name)
+                except Recursion:
+                    eng.note(f"refused_{where}")
+                    raise
+
+    def _conditions(self, ev, data):
+        """All condition functions are consulted; the event is accepted iff all agree."""
+        self._run_acts('cond', ev, 'cond')
+        return not (f"cond_{ev}" in self.methods and not data.get('ok', True))
 
     def _guarded(self, func, *args):
         """
@@ -377,6 +408,7 @@ class FsmFlowModel(BlockModel):
 
     def _transition(self, ev, data, newstate):
         if self.output != UNDEF:
+            self._run_acts('exit', self.fstate, 'exit_first')
             self.emit(f"on_exit:{self.fstate}", {'value': self.output})
         if self.pending is not None:
             raise HandlerError(self.name, 'stale-chained-request')
@@ -384,6 +416,8 @@ class FsmFlowModel(BlockModel):
             if self.pending is not None:
                 ev, data, newstate = self.pending
                 self.pending = None
+                # intermediate state: its exit action runs, no events are generated
+                self._run_acts('exit', self.fstate, 'exit_intermediate')
             self.fstate = newstate
             if f"enter_{newstate}" in self.methods:
                 for req in self.inst.get('chain', {}).get(newstate, []):
